@@ -29,4 +29,39 @@ def c15_lanes(workdir):
     return ["-I" + workdir]
 
 
-GENERATORS = {"c15_lanes": c15_lanes}
+RESET_TYPE = {"ooo_mgr_aes_reset": "MB_MGR_AES_OOO", "ooo_mgr_docsis_aes_reset": "MB_MGR_DOCSIS_AES_OOO", "ooo_mgr_cmac_reset": "MB_MGR_CMAC_OOO",
+              "ooo_mgr_ccm_reset": "MB_MGR_CCM_OOO", "ooo_mgr_aes_xcbc_reset": "MB_MGR_AES_XCBC_OOO", "ooo_mgr_hmac_sha1_reset": "MB_MGR_HMAC_SHA_1_OOO",
+              "ooo_mgr_hmac_sha224_reset": "MB_MGR_HMAC_SHA_256_OOO", "ooo_mgr_hmac_sha256_reset": "MB_MGR_HMAC_SHA_256_OOO",
+              "ooo_mgr_hmac_sha384_reset": "MB_MGR_HMAC_SHA_512_OOO", "ooo_mgr_hmac_sha512_reset": "MB_MGR_HMAC_SHA_512_OOO",
+              "ooo_mgr_hmac_md5_reset": "MB_MGR_HMAC_MD5_OOO", "ooo_mgr_zuc_reset": "MB_MGR_ZUC_OOO", "ooo_mgr_sha1_reset": "MB_MGR_SHA_1_OOO",
+              "ooo_mgr_sha256_reset": "MB_MGR_SHA_256_OOO", "ooo_mgr_sha512_reset": "MB_MGR_SHA_512_OOO", "ooo_mgr_des_reset": "MB_MGR_DES_OOO",
+              "ooo_mgr_snow3g_reset": "MB_MGR_SNOW3G_OOO"}
+
+
+def c16_field_types(workdir):
+    """which manager struct each IMB_MGR.<x>_ooo field holds, taken from how the variants RESET it
+    (ooo_mgr_<kind>_reset(state-><field>, n) call sites; reset function -> its struct type is the
+    cast at the top of each reset function, re-read here)"""
+    src = open(os.path.join(REPO, "lib", "x86_64", "ooo_mgr_reset.c")).read()
+    fn_type = {}
+    for m in re.finditer(r"\b(ooo_mgr_\w+_reset)\s*\(void \*p_ooo_mgr[^)]*\)\s*\{\s*(MB_MGR_\w+)\s*\*p_mgr", src):
+        fn_type[m.group(1)] = m.group(2)
+    field_type = {}
+    for p in sorted(glob.glob(os.path.join(REPO, "lib", "*", "mb_mgr_*.c"))):
+        txt = open(p).read()
+        for m in re.finditer(r"\b(ooo_mgr_\w+_reset)\s*\(\s*state->(\w+)\s*,", txt):
+            t = fn_type.get(m.group(1))
+            if t:
+                field_type.setdefault(m.group(2), set()).add(t)
+    lines = ["/* generated each run: IMB_MGR manager field -> struct type, from the reset call sites of all variants */"]
+    for f, ts in sorted(field_type.items()):
+        if len(ts) == 1:
+            lines.append("FIELD_TYPE(%s, %s)" % (f, list(ts)[0]))
+        else:
+            lines.append("FIELD_TYPE_AMBIGUOUS(%s)" % f)
+    with open(os.path.join(workdir, "c16_field_types.h"), "w") as fh:
+        fh.write("\n".join(lines) + "\n")
+    return ["-I" + workdir]
+
+
+GENERATORS = {"c15_lanes": c15_lanes, "c16_field_types": c16_field_types}
